@@ -300,6 +300,23 @@ omit [DecidableEq K] in
 theorem expoSignal_getD (u : K) (N j : Nat) (hj : j < N) : (expoSignal u N).getD j 0 = u ^ j := by
   simp [expoSignal, List.getD_eq_getElem?_getD, hj]
 
+/-- every output sample (transient included): the partial transfer sum times `u^n` -/
+theorem firRun_expo_general (b : List K) (u w : K) (huw : u * w = 1) (N n : Nat) (hn : n < N) :
+    (firRun b (expoSignal u N)).getD n 0
+      = (∑ k ∈ range b.length, if k ≤ n then b.getD k 0 * w ^ k else 0) * u ^ n := by
+  rw [firRun_getD b _ n (by simp [expoSignal]; omega), convAt_eq_sum, Finset.sum_mul]
+  apply Finset.sum_congr rfl
+  intro k _
+  by_cases hk' : k ≤ n
+  · simp only [hk', if_true]
+    rw [expoSignal_getD u N (n - k) (by omega)]
+    have : u ^ n = u ^ (n - k) * u ^ k := by rw [← pow_add]; congr 1; omega
+    rw [this]
+    have h1 : u ^ k * w ^ k = 1 := by rw [← mul_pow, huw, one_pow]
+    calc b.getD k 0 * u ^ (n - k) = b.getD k 0 * u ^ (n - k) * (u ^ k * w ^ k) := by rw [h1, mul_one]
+      _ = b.getD k 0 * w ^ k * (u ^ (n - k) * u ^ k) := by ring
+  · simp [hk']
+
 theorem firRun_expo (b : List K) (u w : K) (huw : u * w = 1) (N n : Nat) (hn : n < N)
     (hord : b.length ≤ n + 1) :
     (firRun b (expoSignal u N)).getD n 0 = evalDirect b w * u ^ n := by
